@@ -118,7 +118,7 @@ func ruleC04(c *Check) {
 					R = gf.T.A[0]
 				}
 			}
-			okR := R != nil && R.ContainsOp("types.GetActiveRequestSubspaceByReqCtx") && R.Op == "res"
+			okR := R != nil && c.P.scansFamily(R, "0x15") && R.Op == "res"
 			c.req(okR, "C04.1", effConstruct("EndBlocker", e), e.Pos, "dominated by ¬SuperMode of the request whose active marker is being iterated")
 			if okR {
 				c.slashTarget("C04.3", "EndBlocker", e, R.String(), gBinding)
@@ -127,6 +127,8 @@ func ruleC04(c *Check) {
 	}
 	c.req(nBurn >= 2, "C04.1", "slash-sites", token.NoPos, fmt.Sprintf("%d entry-level slash variants (respond, end-block)", nBurn))
 	c.expiryScanGuard("C04.1")
+	// the expiry scan is skipped for a batch marked COMPLETED: that mark may only be written when no request of the batch is pending
+	c.contextFieldRules("C04.7", map[string]bool{"batchstate": true, "state": true})
 
 	// (2) exactly-when and slash ⇔ refund, per calling unit
 	units := 0
